@@ -21,8 +21,10 @@ from typing import Any, Callable, Optional
 VERIF = Path(__file__).resolve().parent.parent
 REPO = Path(os.environ.get("VERIF_REPO", "/repo"))
 PKG = REPO / "symplyphysics"
-EVIDENCE_DIR = VERIF / "evidence"
-REPLAY_DIR = VERIF / "replays"
+# evidence of a run against a scratch copy (self-tests, seeded changes: VERIF_REPO != /repo) never overwrites the evidence of /repo
+_SCRATCH = str(REPO) != "/repo"
+EVIDENCE_DIR = Path(os.environ.get("VERIF_EVIDENCE_DIR") or (Path("/tmp/vfm-evidence") if _SCRATCH else VERIF / "evidence"))
+REPLAY_DIR = Path(os.environ.get("VERIF_REPLAY_DIR") or (Path("/tmp/vfm-replays") if _SCRATCH else VERIF / "replays"))
 KNOWN_FINDINGS = VERIF / "known_findings.json"
 
 PROVED, REFUTED, UNKNOWN, FAULT = "proved", "refuted", "unknown", "fault"
@@ -187,7 +189,7 @@ class Report:
             "wall_s": round(wall, 2),
             "violations": len(violations) + len(bounded_fail),
         }
-        EVIDENCE_DIR.mkdir(exist_ok=True)
+        EVIDENCE_DIR.mkdir(parents=True, exist_ok=True)
         (EVIDENCE_DIR / f"{self.pid}.json").write_text(json.dumps(ev, indent=1, default=str) + "\n")
         # ------------------------------------------------------------ console
         print(f"[{self.pid}] tier={self.tier} obligations={len(counted)} discharged={discharged} "
@@ -212,7 +214,7 @@ class Report:
             code = max(code, 2) if code != 3 else 3
         allv = violations + bounded_fail
         if allv:
-            REPLAY_DIR.mkdir(exist_ok=True)
+            REPLAY_DIR.mkdir(parents=True, exist_ok=True)
             for o in allv:
                 path = write_replay(self.pid, o)
                 tail = "" if (o.replay and o.replay.get("reproduced")) else " no-failing-input-found"
@@ -224,7 +226,7 @@ class Report:
 
 
 def write_replay(pid: str, ob: Ob) -> str:
-    REPLAY_DIR.mkdir(exist_ok=True)
+    REPLAY_DIR.mkdir(parents=True, exist_ok=True)
     h = hashlib.sha256((ob.name + "|" + ob.signature).encode()).hexdigest()[:12]
     path = REPLAY_DIR / f"{pid}-{h}.json"
     body = {
